@@ -411,3 +411,145 @@ Proof.
         (repeat split; try assumption; try reflexivity; try (left; reflexivity)).
       apply N.ltb_lt in Ep. replace (N.to_nat p' - List.length f)%nat with 0%nat by (unfold len in Ep; lia). cbn [repeat]. apply app_nil_r.
 Qed.
+
+(* ================= read_header ================= *)
+Theorem read_header_code fuel s h1 h2 b0 rest :
+  file s = (mk_header h1 h2 b0 ++ rest)%list -> List.length h1 = 16%nat -> len h2 < 65536 -> len b0 < 4294967296 ->
+  s_closed (strm s) = false ->
+  let '(s', o) := exec fuel read_header_prog s in
+  o = ONormal /\ file s' = file s /\
+  lookup_env (attrs s') "h1" = Some (VBytes h1) /\ lookup_env (attrs s') "h2" = Some (VBytes h2) /\
+  lookup_env (attrs s') "b0" = Some (VBytes b0) /\
+  (forall x, x <> "h1" -> x <> "h2" -> x <> "b0" -> lookup_env (attrs s') x = lookup_env (attrs s) x) /\
+  s_closed (strm s') = false /\ s_wr (strm s') = s_wr (strm s).
+Proof.
+  intros Hf L1 L2 L0 Hc. destruct s as [f [p w c] at_ lo]. cbn in Hf, Hc. subst c.
+  do 16 (destruct h1 as [|? h1]; [discriminate|]). destruct h1; [|discriminate]. clear L1.
+  unfold mk_header, be32 in Hf. cbn [app repeat] in Hf.
+  set (A := len h2 / 256 mod 256) in *. set (Bb := len h2 mod 256) in *.
+  set (C1 := len b0 / 16777216 mod 256) in *. set (C2 := len b0 / 65536 mod 256) in *.
+  set (C3 := len b0 / 256 mod 256) in *. set (C4 := len b0 mod 256) in *.
+  assert (E2 : A * 256 + Bb = len h2) by (unfold A, Bb; lia).
+  assert (E0 : rd32 C1 C2 C3 C4 = len b0) by (unfold rd32, C1, C2, C3, C4; lia).
+  remember [n; n0; n1; n2; n3; n4; n5; n6; n7; n8; n9; n10; n11; n12; n13; n14; A; Bb; C1; C2; C3; C4; 0; 0; 0; 0; 0; 0; 0; 0; 0; 0] as pre eqn:Hpre.
+  assert (HF : f = (pre ++ h2 ++ b0 ++ rest)%list) by (rewrite Hpre, Hf; cbn [app]; rewrite <- app_assoc; reflexivity).
+  assert (Lp : len pre = 32) by (rewrite Hpre; reflexivity).
+  assert (Up : unpack HFile pre = Some (VTup [VBytes [n; n0; n1; n2; n3; n4; n5; n6; n7; n8; n9; n10; n11; n12; n13; n14]; VInt (len h2); VInt (len b0)])).
+  { rewrite Hpre. cbn. rewrite E2, E0. reflexivity. }
+  clear Hf Hpre. subst f.
+  unfold read_header_prog. cbn [exec strm s_closed eval]. cbn [set_pos file strm attrs locals s_wr s_closed s_pos hdr_size].
+  unfold do_read. cbn [file strm s_pos set_pos]. rewrite sub_skipn. change (N.to_nat 0) with 0%nat. cbn [skipn].
+  replace (N.to_nat 32) with (N.to_nat (len pre)) by (rewrite Lp; reflexivity). rewrite firstn_len_app. rewrite Up. rewrite Lp.
+  Ltac stp := repeat (progress (cbn [exec eval set_local set_attr set_pos locals attrs file strm s_closed s_wr s_pos nth_error];
+                                repeat (first [rewrite lookup_set_same | rewrite lookup_set_other by discriminate]))).
+  stp. unfold do_read. stp. replace (0 + 32) with (len pre) by (rewrite Lp; reflexivity).
+  rewrite sub_app_mid. stp. unfold do_read. stp.
+  replace (len pre + len h2) with (len (pre ++ h2)%list) by (rewrite len_app; reflexivity).
+  replace (pre ++ h2 ++ b0 ++ rest)%list with ((pre ++ h2) ++ b0 ++ rest)%list by (rewrite <- app_assoc; reflexivity).
+  rewrite sub_app_mid. stp.
+  repeat split; try reflexivity.
+  intros x X1 X2 X3. rewrite !lookup_set_other by congruence. reflexivity.
+Qed.
+
+(* ================= open(mode) ================= *)
+Definition mode_str (m : mode) : string := match m with MR => "r" | MA => "a" end.
+
+Lemma len_mk_header h1 h2 b0 : List.length h1 = 16%nat -> len (mk_header h1 h2 b0) = 32 + len h2 + len b0.
+Proof.
+  intros H1. unfold mk_header. rewrite !len_app. replace (len h1) with 16 by (unfold len; rewrite H1; reflexivity).
+  replace (len [len h2 / 256 mod 256; len h2 mod 256]) with 2 by reflexivity.
+  replace (len (be32 (len b0))) with 4 by reflexivity. replace (len (repeat 0 10)) with 10 by reflexivity. lia.
+Qed.
+
+Opaque read_header_prog map_blocks_prog.
+
+Theorem open_code fuel s h m h1 h2 b0 rest :
+  (List.length (file s) < fuel)%nat ->
+  file s = (mk_header h1 h2 b0 ++ rest)%list -> List.length h1 = 16%nat -> len h2 < 65536 -> len b0 < 4294967296 ->
+  lookup_env (attrs s) "_toc" = Some (VToc (toc h)) -> lookup_env (attrs s) "_last" = Some (vopt_bytes (last h)) ->
+  lookup_env (attrs s) "_eof" = Some (vopt_int (eof h)) -> lookup_env (attrs s) "_closed" = Some (VBool (closed h)) ->
+  (closed h = false -> s_closed (strm s) = false /\ s_wr (strm s) = match md h with MA => true | MR => false end) ->
+  (closed h = false -> eof h <> None) ->
+  (forall k, last h = Some k -> lookup (toc h) k <> None) ->
+  lookup_env (locals s) "mode" = Some (VStr (mode_str m)) ->
+  let '(s', o) := exec fuel open_prog s in
+  let '(f', h') := open_ (file s) h m in
+  file s' = f' /\ (o = ONormal \/ o = OReturn VNone) /\ Rep s' h'.
+Proof.
+  intros Hfuel Hf L1 L2 L0 At Al Ae Ac As An Ain Lm.
+  destruct s as [f [p w c] at_ lo]. cbn in Hfuel, Hf, At, Al, Ae, Ac, As, An, Lm.
+  unfold open_prog, open_. cbn [file]. cbn [exec eval attrs]. rewrite Ac. cbn [truthy negb].
+  destruct (closed h) eqn:Ec; cbn [negb].
+  2:{ (* already open: nothing happens *)
+      cbn [exec eval]. split; [reflexivity|]. split; [right; reflexivity|].
+      constructor; cbn [attrs strm]; try assumption; rewrite Ec; assumption. }
+  cbn [exec eval attrs locals]. rewrite Lm. cbn [truthy].
+  assert (Tm : (match mode_str m with EmptyString => false | _ => true end) = true) by (destruct m; reflexivity).
+  rewrite Tm. cbn [set_attr attrs locals file strm]. rewrite !lookup_set_same.
+  set (at1 := set_env at_ "mode" (VStr (mode_str m))).
+  set (hm := mkh (toc h) (last h) (eof h) m false).
+  assert (Main : forall wflag, wflag = match m with MA => true | MR => false end ->
+    let s1 := mkst f (mks 0 wflag false) at1 lo in
+    let '(sx, ox) := exec fuel read_header_prog s1 in
+    ox = ONormal /\
+    let '(sy, oy) := exec fuel map_blocks_prog sx in
+    let '(f', h') := map_blocks f hm in
+    file sy = f' /\ (oy = ONormal \/ oy = OReturn VNone) /\
+    lookup_env (attrs sy) "_toc" = Some (VToc (toc h')) /\ lookup_env (attrs sy) "_last" = Some (vopt_bytes (last h')) /\
+    lookup_env (attrs sy) "_eof" = Some (vopt_int (eof h')) /\
+    lookup_env (attrs sy) "_closed" = Some (VBool true) /\
+    s_closed (strm sy) = false /\ s_wr (strm sy) = wflag /\ md h' = m /\ closed h' = false /\ eof h' <> None).
+  { intros wflag Hw s1.
+    pose proof (read_header_code fuel s1 h1 h2 b0 rest Hf L1 L2 L0 eq_refl) as RH.
+    destruct (exec fuel read_header_prog s1) as [sx ox]. destruct RH as [R1 [R2 [R3 [R4 [R5 [R6 [R7 R8]]]]]]].
+    split; [exact R1|].
+    assert (O : Obj sx hm h2 b0).
+    { constructor; cbn [toc last eof md hm].
+      - rewrite R6 by discriminate. unfold s1, at1; cbn [attrs]. rewrite lookup_set_other by discriminate. exact At.
+      - rewrite R6 by discriminate. unfold s1, at1; cbn [attrs]. rewrite lookup_set_other by discriminate. exact Al.
+      - rewrite R6 by discriminate. unfold s1, at1; cbn [attrs]. rewrite lookup_set_other by discriminate. exact Ae.
+      - exact R4.
+      - exact R5.
+      - rewrite R2. unfold s1; cbn [file]. rewrite Hf. rewrite (mk_header_ok h1 h2 b0 L1 L2 L0 rest). rewrite len_mk_header by exact L1. lia.
+      - exact Ain.
+      - split; [exact R7|]. rewrite R8. unfold s1; cbn [strm s_wr]. exact Hw. }
+    assert (Hfuel' : (List.length (file sx) < fuel)%nat) by (rewrite R2; exact Hfuel).
+    pose proof (map_blocks_code fuel sx hm h2 b0 Hfuel' O) as MB.
+    destruct (exec fuel map_blocks_prog sx) as [sy oy]. rewrite R2 in MB. unfold s1 in MB; cbn [file] in MB.
+    destruct (map_blocks f hm) as [f' h'] eqn:Emb.
+    destruct MB as [M1 [M2 [M3 [M4 [M5 [M6 [M7 [M8 [M9 M10]]]]]]]]].
+    repeat split; try assumption.
+    - rewrite M6 by discriminate. rewrite R6 by discriminate. unfold s1, at1; cbn [attrs]. rewrite lookup_set_other by discriminate. rewrite Ac. reflexivity.
+    - rewrite M8, R8. reflexivity.
+    - (* an opened handle has mapped its file *)
+      unfold map_blocks in Emb. destruct (shortcut f hm) eqn:Esc.
+      + inversion Emb; subst. unfold shortcut in Esc. cbn [eof hm] in *. destruct (eof h); [discriminate|discriminate].
+      + destruct (scan (S (List.length f)) (skipn (N.to_nat (bof_of f)) f) (bof_of f) (toc hm) None) as [[t0 lk0] p0].
+        cbn [md hm] in Emb. destruct m; [inversion Emb; subst; cbn; discriminate|].
+        destruct (p0 <? len f); inversion Emb; subst; cbn; discriminate. }
+  assert (Fin : forall wflag sy (h' : handle),
+            lookup_env (attrs sy) "_toc" = Some (VToc (toc h')) -> lookup_env (attrs sy) "_last" = Some (vopt_bytes (last h')) ->
+            lookup_env (attrs sy) "_eof" = Some (vopt_int (eof h')) -> s_closed (strm sy) = false -> s_wr (strm sy) = wflag ->
+            wflag = match md h' with MA => true | MR => false end -> closed h' = false -> eof h' <> None ->
+            Rep (set_attr sy "_closed" (VBool false)) h').
+  { intros wflag sy h' M3 M4 M5 M7 M8 Hw Hc He. constructor; cbn [set_attr attrs strm].
+    - rewrite lookup_set_other by discriminate. exact M3.
+    - rewrite lookup_set_other by discriminate. exact M4.
+    - rewrite lookup_set_other by discriminate. exact M5.
+    - rewrite lookup_set_same, Hc. reflexivity.
+    - intros _. split; [exact M7|]. rewrite M8. exact Hw.
+    - intros _. exact He. }
+  destruct m; cbn [mode_str val_eqb String.eqb Ascii.eqb Bool.eqb truthy].
+  - specialize (Main false eq_refl). cbn zeta in Main.
+    destruct (exec fuel read_header_prog _) as [sx ox]. destruct Main as [Ox Main]. subst ox.
+    destruct (exec fuel map_blocks_prog sx) as [sy oy]. destruct (map_blocks f hm) as [f' h'].
+    destruct Main as [M1 [M2 [M3 [M4 [M5 [M6 [M7 [M8 [M9 [M10 M11]]]]]]]]]].
+    destruct M2 as [M2|M2]; subst oy; (split; [exact M1|]; split; [left; reflexivity|];
+      apply (Fin false); try assumption; rewrite M9; reflexivity).
+  - specialize (Main true eq_refl). cbn zeta in Main.
+    destruct (exec fuel read_header_prog _) as [sx ox]. destruct Main as [Ox Main]. subst ox.
+    destruct (exec fuel map_blocks_prog sx) as [sy oy]. destruct (map_blocks f hm) as [f' h'].
+    destruct Main as [M1 [M2 [M3 [M4 [M5 [M6 [M7 [M8 [M9 [M10 M11]]]]]]]]]].
+    destruct M2 as [M2|M2]; subst oy; (split; [exact M1|]; split; [left; reflexivity|];
+      apply (Fin true); try assumption; rewrite M9; reflexivity).
+Qed.
